@@ -124,6 +124,22 @@ def run_case(case, rng):
         ctrl = case.call("StochasticFiniteStateController", StochasticFiniteStateController, pomdp, psi, eta, init)
         if ctrl is case.FAIL:
             return
+        if nn >= 2:
+            # a subclass that overrides the public initial_agentstate (starts from another node distribution): roll-outs
+            # started without an explicit agent state begin there
+            other0 = np.array(_simplex(rng, nn, positive=True))[::-1].copy()
+
+            class OtherStart(StochasticFiniteStateController):
+                def initial_agentstate(self_):
+                    return other0.copy()
+            oc = case.call("StochasticFiniteStateController-subclass", OtherStart, pomdp, psi, eta, init)
+            if oc is not case.FAIL:
+                import random as _r
+                tr0 = case.call("run_on(subclass)", oc.run_on, pomdp, max_steps=2, rng=_r.Random(3), facts=facts)
+                case.count("controller_subclass_rollouts")
+                if tr0 is not case.FAIL:
+                    case.check(np.array_equal(np.asarray(tr0[0].agentstate), other0), "controller:run_on-ignores-the-overridden-initial_agentstate",
+                               lambda: f"override {other0.tolist()} roll-out started from {np.asarray(tr0[0].agentstate).tolist()}", **facts)
         Ai = {a: i for i, a in enumerate(A)}
         Oi = {o: i for i, o in enumerate(OL)}
         L = 3 if len(A) * len(OL) <= 6 else 2
